@@ -305,6 +305,18 @@ def m_remaining_len(M, a, c, fr):
     return res_ok(opt_some(BV64(i.rem())))
 
 
+def m_input_read(M, a, c, fr):
+    """Input::read(&mut self, into: &mut [u8]): fills the whole buffer or fails"""
+    i = inbuf(M, a[0]); pass_abs(M, i)
+    tgt = M.load(a[1])
+    n = len(tgt.elems) if isinstance(tgt, (ValSlice, VecV)) else len(tgt)
+    if isinstance(tgt, VecV): n = M.concrete(tgt.len, 'read.len')
+    if i.rem() < n or any(isinstance(b, AbsElems) for b in i.bytes[i.pos:i.pos + n]): return res_err(ERR)
+    bs = list(i.bytes[i.pos:i.pos + n]); i.pos += n
+    M.store(a[1], bs if isinstance(tgt, list) else (VecV(BV64(n), bs) if isinstance(tgt, VecV) else ValSlice(bs)))
+    return res_ok([])
+
+
 def m_err(M, a, c, fr): return ERR
 def m_chain(M, a, c, fr): return a[0]
 
@@ -320,7 +332,7 @@ CODEC_MODELS = [
     (r'<&(mut )?.+ as Encode>::encode_to(::<.*>)?', m_enc_ref),
     (r'<PhantomData<.*> as Encode>::encode_to(::<.*>)?', lambda M, a, c, fr: []),
     (r'<.+ as Encode>::size_hint', lambda M, a, c, fr: BV64(0)),
-    (r'<(__Codec\w+|I) as (parity_scale_codec::)?Input>::read_byte', m_read_byte), (r'<(__Codec\w+|I) as (parity_scale_codec::)?Input>::remaining_len', m_remaining_len), (r'<u8 as Decode>::decode(::<.*>)?', m_read_byte),
+    (r'<(__Codec\w+|I) as (parity_scale_codec::)?Input>::read_byte', m_read_byte), (r'<(__Codec\w+|I) as (parity_scale_codec::)?Input>::remaining_len', m_remaining_len), (r'<(__Codec\w+|I) as (parity_scale_codec::)?Input>::read', m_input_read), (r'<u8 as Decode>::decode(::<.*>)?', m_read_byte),
     (r'<u32 as Decode>::decode(::<.*>)?', m_dec_u32), (r'<Compact<u32> as Decode>::decode(::<.*>)?', m_dec_compact),
     (r'<Compact<u32> as Into<u32>>::into', lambda M, a, c, fr: a[0][0]),
     (r'<Vec<.+> as Decode>::decode(::<.*>)?', m_dec_vec), (r'<String as Decode>::decode(::<.*>)?', m_dec_string),
